@@ -27,8 +27,9 @@ Normalize(r) == IF OneWay(r) \/ PairLess(r) THEN r ELSE Invert(r)
 ConcatLess(r) == LexLess(r.ft \o r.fn, r.tt \o r.tn)
 NormalizeByConcatenation(r) == IF ConcatLess(r) \/ OneWay(r) THEN r ELSE Invert(r)
 
-\* In the domain of C16: a relationship has a name and two type names.
-InDomain(r) == r.ft # <<>> /\ r.tt # <<>> /\ r.fn # <<>>
+\* In the domain of C16: a relationship has a name.  ("all type and relationship names": a relationship
+\* VALUE may carry the empty type name on either end, although no schema holds such a type)
+InDomain(r) == r.fn # <<>>
 \* A relationship that is its own inverse up to cardinality (same type and same name on both
 \* ends, cardinalities different) has no canonical direction: the laws that compare it with its
 \* inverse do not apply to it, the others do.
